@@ -40,7 +40,7 @@ def _run_tlc(module, cfg, env=None, workers=1, extra=(), timeout=3600, heap="2g"
         "-noGenerateSpecTE",
     ]
     if simulate:
-        cmd += ["-simulate", simulate]
+        cmd += ["-simulate"] + ([simulate] if isinstance(simulate, str) else [])
     cmd += list(extra) + [module]
     e = dict(os.environ)
     e.update(env or {})
